@@ -1982,7 +1982,7 @@ package xpath
 //@   ensures[swf@C17] swf(p.r)
 //@   maypanic
 //@   modifies heap(F:scanner.*)
-//@   ensures[progress@C06] pmeas(p.r) <= old(pmeas(p.r)) && (old(p.r.typ) != itemEOF ==> pmeas(p.r) < old(pmeas(p.r)))
+//@   ensures[progress@C06] old(p.r.typ) != itemEOF ==> pmeas(p.r) < old(pmeas(p.r))
 //@ func (*parser).skipItem
 //@   props C06
 //@   requires p != nil
@@ -1991,7 +1991,7 @@ package xpath
 //@   maypanic
 //@   modifies heap(F:scanner.*)
 //@   ensures[token@C17] old(p.r.typ) == typ
-//@   ensures[progress@C06] pmeas(p.r) <= old(pmeas(p.r)) && (old(p.r.typ) != itemEOF ==> pmeas(p.r) < old(pmeas(p.r)))
+//@   ensures[progress@C06] old(p.r.typ) != itemEOF ==> pmeas(p.r) < old(pmeas(p.r))
 //@ func (*scanner).nextChar
 //@   props C06 C17
 //@   requires[swf@C17] 0 <= s.pos && s.pos <= len(s.text)
@@ -2003,6 +2003,7 @@ package xpath
 //@   ensures[progress@C06] smeas(s) <= old(smeas(s)) && (old(s.curr) != 0 ==> smeas(s) < old(smeas(s)))
 //@ func (*scanner).nextItem
 //@   props C06 C17
+//@   mode int
 //@   requires[swf@C17] swf(s)
 //@   maypanic
 //@   modifies heap(F:scanner.*)
@@ -2040,9 +2041,9 @@ package xpath
 //@   ensures[swf@C17] swf(s)
 //@   loop 0 invariant[swf@C17] swf(s)
 //@   loop 1 invariant[swf@C17] swf(s)
-//@   ensures[progress@C06] smeas(s) <= old(smeas(s))
+//@   ensures[progress@C06] smeas(s) <= old(smeas(s)) && (isDigit(old(s.curr)) ==> smeas(s) < old(smeas(s)))
 //@   loop * decreases smeas(s)
-//@   loop * invariant[progress@C06] smeas(s) <= old(smeas(s))
+//@   loop * invariant[progress@C06] smeas(s) <= old(smeas(s)) && (smeas(s) < old(smeas(s)) || s.pos == old(s.pos) && s.curr == old(s.curr))
 //@ func (*scanner).scanString
 //@   props C06 C17
 //@   requires[swf@C17] swf(s)
@@ -2050,9 +2051,10 @@ package xpath
 //@   modifies s.curr, s.currSize, s.pos
 //@   ensures[swf@C17] swf(s)
 //@   loop 0 invariant[swf@C17] swf(s)
-//@   ensures[progress@C06] smeas(s) <= old(smeas(s))
+//@   requires[quote@C06] s.curr != 0
+//@   ensures[progress@C06] smeas(s) < old(smeas(s))
 //@   loop * decreases len(s.text) - s.pos
-//@   loop * invariant[progress@C06] smeas(s) <= old(smeas(s))
+//@   loop * invariant[progress@C06] smeas(s) < old(smeas(s))
 //@ func (*scanner).scanName
 //@   props C06 C17
 //@   requires[swf@C17] swf(s)
@@ -2062,9 +2064,9 @@ package xpath
 //@   ensures[nonempty-name@C17] isName(old(s.curr)) ==> result != ""
 //@   loop 0 invariant[swf@C17] swf(s) && 0 <= c && c <= s.pos
 //@   loop 0 invariant[progress@C17] c >= 1 || s.curr == old(s.curr)
-//@   ensures[progress@C06] smeas(s) <= old(smeas(s))
+//@   ensures[progress@C06] smeas(s) <= old(smeas(s)) && (isName(old(s.curr)) ==> smeas(s) < old(smeas(s)))
 //@   loop * decreases len(s.text) - s.pos
-//@   loop * invariant[progress@C06] smeas(s) <= old(smeas(s))
+//@   loop * invariant[progress@C06] smeas(s) <= old(smeas(s)) && (smeas(s) < old(smeas(s)) || s.pos == old(s.pos) && s.curr == old(s.curr))
 //@ func checkItem
 //@   props C06
 //@   maypanic
@@ -2134,6 +2136,8 @@ package xpath
 //@ define axisKnown(a) = a == "ancestor" || a == "ancestor-or-self" || a == "attribute" || a == "child" || a == "descendant" || a == "descendant-or-self" || a == "following" || a == "following-sibling" || a == "parent" || a == "preceding" || a == "preceding-sibling" || a == "self"
 //@ func isName
 //@   pure
+//@   props C15 C06
+//@   ensures[nul-is-no-name-char@C06] r == 0 ==> !result
 //@ func isDigit
 //@   pure
 //@   props C15 C06
